@@ -38,6 +38,7 @@ func isCallTo(v ssa.Value, id string) *ssa.Call {
 }
 
 func checkC01(p *load.Program, r *kit.Report) {
+	importRules(p, r, "C17", "MarkHeaderInvalid removes the marked header's descendants and nothing else: a sibling fork that is removed with them leaves a heavier chain of still accepted headers unreported", 2, nil, "TRIM-SHAPE")
 	importRules(p, r, "C11", "after a restart the reported chain is what Save managed to write: a write that failed but is reported as saved leaves the most-work branch out of the files, and the next Load comes up on a lighter chain", 3,
 		func(o *kit.Obligation) bool {
 			return strings.HasPrefix(o.Construct, "headers.Repository.save") || strings.HasPrefix(o.Construct, "headers.Repository.Save") || strings.HasPrefix(o.Construct, "headers.Branch.Save")
